@@ -99,6 +99,13 @@ def c12(tier):
         for _ in range(rnd.randrange(1, 4)):
             s[rnd.randrange(len(s))] = rnd.choice([0x80, 0xff, 0xc3, 0xe2, 0x00, 0xf0, 0xbf, 0x22, 0x27, 0x2f, 0x2a])
         raws.append(list(s))
+    # a string literal with invalid UTF-8 in the place of every token of a valid document, one at a time
+    toks = tokens_of(GOOD)
+    for i, tk in enumerate(toks):
+        if tk.isspace():
+            continue
+        doc = "".join(toks[:i]).encode() + b"'\xff\xfe'" + "".join(toks[i + 1:]).encode()
+        raws.append(list(doc))
     inp = {"lex": [l["in"] for l in lex], "texts": texts, "raw": raws}
     recs, crashers = run_surviving(binary, "opl", inp, timeout=1800)
     for c in crashers:
@@ -114,6 +121,9 @@ def c12(tier):
         ck.evaluations += 1
         if po.get("panic"):
             ck.violation("the parser panicked on %s: %s" % (what, po["panic"][:200]), cid)
+            return
+        if po.get("hang"):
+            ck.violation("the parser had not returned after 20 s on %s" % what, cid)
             return
         for b in po.get("bad") or []:
             ck.violation("parse error position/rendering: " + b, cid)
